@@ -101,12 +101,13 @@ impl Continuous for Gamma {
     /// # Remarks
     /// x should be positive.
     fn pdf(&self, x: f64) -> f64 {
-        if x <= 0. {
+        if x <= 0. || x == f64::INFINITY {
             return 0.;
         }
-        self.beta.powf(self.alpha) / gamma(self.alpha)
-            * x.powf(self.alpha - 1.)
-            * (-self.beta * x).exp()
+        // beta^alpha and x^(alpha - 1) overflow or underflow long before the density does
+        // (alpha = 50, beta = 1e-3, x = 2e7 gave NaN), so the factors are combined in log space
+        (self.alpha * self.beta.ln() + (self.alpha - 1.) * x.ln() - self.beta * x).exp()
+            / gamma(self.alpha)
     }
 }
 
